@@ -240,8 +240,8 @@ def _child_main(argv):
 def _scratch():
     global _SCRATCH
     if _SCRATCH is None:
-        os.makedirs("/tmp/A7-c42", exist_ok=True)
-        _SCRATCH = tempfile.mkdtemp(prefix="w", dir="/tmp/A7-c42")
+        os.makedirs("/tmp/verif-c42-scratch", exist_ok=True)
+        _SCRATCH = tempfile.mkdtemp(prefix="w", dir="/tmp/verif-c42-scratch")
         atexit.register(_cleanup)
     return _SCRATCH
 
@@ -260,7 +260,7 @@ def _cleanup():
     if _SCRATCH:
         shutil.rmtree(_SCRATCH, ignore_errors=True)
         try:
-            os.rmdir("/tmp/A7-c42")
+            os.rmdir("/tmp/verif-c42-scratch")
         except OSError:
             pass
 
